@@ -239,6 +239,16 @@ def onlyChild (ks : List Schema) (i : Nat) (d : Data) : List Data := (emptyBody 
 def replaceChild (ks : List Schema) (i : Nat) (d : Data) (body : List Data) : Except Err (List Data) :=
   editKids .insert false ks (onlyChild ks i d) (deleteChild ks i body)
 
+/-- ReplaceFrom on a list entry: `Next{Delete}` for its key, then the list-level insert of the
+    supplied entry (same key), which appends it -/
+def replaceRow (ks : List Schema) (i : Nat) (k : Key) (b : List Data) (body : List Data) : List Data :=
+  match ks[i]?, body[i]? with
+  | some (.list _ lks), some (.list rows) =>
+    match editRows .insert lks [(k, b)] (removeRow k rows) with
+    | .ok rows' => body.set i (.list rows')
+    | .error _ => body.set i (.list (removeRow k rows))    -- the delete has happened
+  | _, _ => body
+
 /-! ### histories of operations on one root container -/
 
 inductive Op
@@ -248,6 +258,7 @@ inductive Op
   | delChild (i : Nat)
   | delRow (i : Nat) (k : Key)
   | replace (i : Nat) (d : Data)
+  | replaceRow (i : Nat) (k : Key) (b : List Data)   -- ReplaceFrom on the entry with key k of list i
 
 def okOr (body : List Data) : Except Err (List Data) → List Data
   | .ok b => b
@@ -260,6 +271,7 @@ def step (ks : List Schema) (body : List Data) : Op → List Data
   | .delChild i => deleteChild ks i body
   | .delRow i k => deleteRow i k body
   | .replace i d => okOr body (replaceChild ks i d body)
+  | .replaceRow i k b => replaceRow ks i k b body
 
 /-- the documents of a request conform to the schema and have unique keys themselves -/
 def Op.wf (ks : List Schema) : Op → Bool
@@ -271,5 +283,8 @@ def Op.wf (ks : List Schema) : Op → Bool
   | .replace i d => match ks[i]? with
     | some s => conforms s d && uniqueKeys d
     | none => false
+  | .replaceRow i _ b => match ks[i]? with
+    | some (.list _ lks) => conformsBody lks b && uniqueKeysBody b
+    | _ => false
 
 end YangVerif.Data
